@@ -11,13 +11,7 @@ Init == txt = <<>> /\ st = Init0
 Next == /\ st.m # "dead" /\ Len(txt) < MaxLen
         /\ \E c \in Alphabet : txt' = Append(txt, c) /\ st' = Step(st, c)
 
-RECURSIVE J(_)
-J(v) == CASE v[1] = "num" -> <<"num", NumClass(v[2]), v[2]>>
-        [] v[1] = "arr" -> <<"arr", [i \in 1..Len(v[2]) |-> J(v[2][i])]>>
-        [] v[1] = "obj" -> <<"obj", [i \in 1..Len(v[2]) |-> <<v[2][i][1], J(v[2][i][2])>>]>>
-        [] OTHER -> v
-
 Case == [t |-> txt, acc |-> AcceptAtEof(st), uc |-> st.uc, ut |-> st.ut, tc |-> st.tc, dc |-> st.dc,
-         dep |-> st.dep, v |-> IF AcceptAtEof(st) THEN J(ResultAtEof(st)) ELSE <<"none">>]
+         dep |-> st.dep, v |-> IF AcceptAtEof(st) THEN ValueOf(ResultAtEof(st)) ELSE <<"none">>]
 Emit == PrintT(ToJson(Case))
 =============================================================================
